@@ -598,7 +598,9 @@ def run(ctx):
     import importlib
     c10 = importlib.import_module("rules.C10")
     before = len(ctx.obs)
+    own_floors = dict(ctx.floors)
     c10.run(ctx)
+    ctx.floors = own_floors        # the included module's floors are reported under its own property
     keep = []
     for o in ctx.obs[before:]:
         if o["rule"] == "R4" and o["instance"] == "term(SLinkedList)":
